@@ -10,7 +10,9 @@ from vf.families.programs import R
 
 SALTS = [None, "", "s1", "user_exp_v1", "café-中", "a b", "0", "x+y", "%s",
          # beyond the BMP (a literal written with a surrogate-pair escape does not round-trip), quotes and a backslash
-         "\U0001f680-\U00020000", "it's q \\"]
+         "\U0001f680-\U00020000", "it's q \\",
+         # blanks at the edges are part of the salt (a model layer that strips strings changes the key)
+         " lead", "trail ", "\ttab\u00a0", " "]
 NAME_SETS = [("uid",), ("b", "a"), ("user_id", "country"), ("Z", "a", "_m"), ("k2", "k10", "k1"),
              ("d", "c", "b", "a"), ("my_fld", "my_fld_1")]
 
